@@ -112,6 +112,16 @@ func (x *gg) clauseTerm() *rt.Term {
 		// a body that is a disjunction: one clause for clause/2 and retract/1, however it is compiled
 		func() *rt.Term { v := x.v(); return rt.C(";", rt.C("=", v, x.val(false)), rt.C("=", v, x.val(false))) },
 		func() *rt.Term { return rt.C(";", rt.C("d", x.v()), rt.C(";", rt.C("e", x.v(), x.v()), rt.A("true"))) },
+		// a rule that looks like a fact: retract(Head) and clause(Head, true) take it like one
+		func() *rt.Term { return rt.A("true") },
+		// alternatives over a head variable: their order is visible in the answers wherever the clause was inserted
+		func() *rt.Term {
+			v := x.v()
+			if hv := h.Vars(nil); len(hv) > 0 {
+				v = rt.V(hv[0])
+			}
+			return rt.C(";", rt.C("=", v, rt.I(1)), rt.C(";", rt.C("=", v, rt.I(2)), rt.C("=", v, rt.I(3))))
+		},
 	}
 	return rt.C(":-", h, bodies[x.n(0, len(bodies)-1, "body")]())
 }
